@@ -91,8 +91,11 @@ func ZZ_C10_Vars() {
 		}
 		add("included-taskfile", hIncFile, ival)
 		inc.Tasks.Set("t", task)
-		include := &ast.Include{Namespace: "ns", AdvancedImport: true, Vars: ast.NewVars()}
+		// the short form `ns: ./dir` has no vars of its own
+		mapping := zz.Bool("include_is_mapping_form")
+		include := &ast.Include{Namespace: "ns", AdvancedImport: mapping, Vars: ast.NewVars()}
 		hIncStmt := zz.Bool("def.incstmt")
+		zz.Assume(mapping || !hIncStmt)
 		sv, sval := zzVal("incstmt", false)
 		if hIncStmt {
 			include.Vars.Set(zzVarName, sv)
@@ -102,7 +105,22 @@ func ZZ_C10_Vars() {
 			root.Vars.Set(zzVarName, gv)
 		}
 		key := "ns:t"
+		// a sibling include whose Taskfile defines the name too (merged later): never what a
+		// task of this file sees while its own Taskfile defines the name
+		hSibling := hIncFile && zz.Bool("def.sibling_included_taskfile")
+		sibVal := zz.Str("val.sibling", 2, "ab")
+		mergeSibling := func() bool {
+			if !hSibling {
+				return true
+			}
+			zz.Assume(sibVal != ival)
+			sib := &ast.Taskfile{Version: ver, Vars: ast.NewVars(), Env: ast.NewVars(), Tasks: ast.NewTasks()}
+			sib.Vars.Set(zzVarName, ast.Var{Value: sibVal})
+			sib.Tasks.Set("other", &ast.Task{Task: "other", Location: &ast.Location{Taskfile: "/d/sib.yml"}, Vars: ast.NewVars()})
+			return root.Merge(sib, &ast.Include{Namespace: "sib", AdvancedImport: zz.Bool("sibling_include_is_mapping_form"), Vars: ast.NewVars()}) == nil
+		}
 		if zz.Bool("nested_two_levels") {
+			zz.Assume(mapping)
 			// root includes `outer` (its include statement may carry an unrelated var),
 			// outer includes the task's file with the include statement above
 			outer := &ast.Taskfile{Version: ver, Vars: ast.NewVars(), Env: ast.NewVars(), Tasks: ast.NewTasks()}
@@ -140,6 +158,10 @@ func ZZ_C10_Vars() {
 			}
 			key = "o:ns:t"
 		} else if err := root.Merge(inc, include); err != nil {
+			zz.Assert(false, "merge-must-not-fail")
+			return
+		}
+		if !mergeSibling() {
 			zz.Assert(false, "merge-must-not-fail")
 			return
 		}
